@@ -31,7 +31,7 @@ def check_session_setup(cfg):
 
 
 def session_cases():
-    opt = {"maxNormalOrders": [0, 3], "maxHighFrequencyOrders": [0, 2], "maxHifreqOrders": [4], "highFrequencySubmitRate": [0.0, 0.5], "hifreqSubmitRate": [0.25]}
+    opt = {"maxNormalOrders": [0, 3], "maxHighFrequencyOrders": [0, 2], "maxHifreqOrders": [4, 0], "highFrequencySubmitRate": [0.0, 0.5], "hifreqSubmitRate": [0.25, 0.0, 0]}
     keys = list(opt)
     for r in range(len(keys) + 1):
         for sub in itertools.combinations(keys, r):
